@@ -119,7 +119,7 @@ Case generate(vf::Src& src, const std::string& mode)
     else if (c.kind == INIT_LIST)
         n = src.irange(0, 4);
     else
-        n = src.irange(0, 8);
+        n = (ex || src.coin(94)) ? src.irange(0, 8) : std::vector<int>{ 15, 16, 17, 33, 64, 100 }[src.index(6)];
     if (c.kind == BUILTIN_ARRAY && c.cat >= RVALUE)
         c.cat = c.cat == RVALUE ? LVALUE : CONST_LVALUE; // there are no array temporaries
     if (c.kind == INIT_LIST)
